@@ -402,3 +402,173 @@ theorem runCallsU_mono_le (prog : Prog K V X R) (n m : Nat) (hle : n ≤ m) :
 end EvalM
 
 end Memo
+
+namespace Memo
+
+section Complete
+variable {K V W X R I : Type} [DecidableEq K] [DecidableEq W] [DecidableEq X] [DecidableEq I]
+
+theorem callSub_mono (proj : V → W) (rid : R → I) (tb : Tbl K W X R I) (rc : Nat) (x : X) (e' : Envf K V)
+    (c1 c2 : Unit → Option (R × List K × Tbl K W X R I)) (hc : ∀ v, c1 () = some v → c2 () = some v)
+    (v : R × List K × Tbl K W X R I) (h : callSub proj rid tb rc x e' c1 = some v) :
+    callSub proj rid tb rc x e' c2 = some v := by
+  unfold callSub at h ⊢
+  cases hf : findHit proj (tb.byMatch rc) e' x with
+  | some m => rw [hf] at h; exact h
+  | none =>
+    rw [hf] at h
+    simp only at h ⊢
+    cases h1 : c1 () with
+    | none => rw [h1] at h; cases h
+    | some p => rw [h1] at h; rw [hc p h1]; exact h
+
+theorem evalM_mono (prog : Prog K V X R) (proj : V → W) (rid : R → I) :
+    ∀ (n : Nat) (tb : Tbl K W X R I) (c : PComp K V X R) (e : Envf K V) (v : R × List K × Tbl K W X R I),
+      evalM prog proj rid n tb c e = some v → evalM prog proj rid (n + 1) tb c e = some v := by
+  intro n
+  induction n with
+  | zero => intro tb c e v h; simp [evalM] at h
+  | succ n ih =>
+    intro tb c e v h
+    cases c with
+    | ret r => simpa [evalM] using h
+    | get k f =>
+      rw [evalM] at h
+      rw [evalM]
+      cases h1 : evalM prog proj rid n tb (f (e k)) e with
+      | none => rw [h1] at h; cases h
+      | some p => rw [h1] at h; rw [ih _ _ _ _ h1]; exact h
+    | call rc x inh ov cont =>
+      rw [evalM] at h
+      rw [evalM]
+      cases h1 : callSub proj rid tb rc x (calleeEnv inh ov e)
+          (fun _ => evalM prog proj rid n tb (prog rc x) (calleeEnv inh ov e)) with
+      | none => rw [h1] at h; cases h
+      | some p =>
+        rw [h1] at h
+        rw [callSub_mono proj rid tb rc x _ _ (fun _ => evalM prog proj rid (n + 1) tb (prog rc x) (calleeEnv inh ov e))
+          (fun v hv => ih _ _ _ _ hv) p h1]
+        obtain ⟨res, t, tb2⟩ := p
+        simp only at h ⊢
+        cases h2 : evalM prog proj rid n tb2 (cont res) e with
+        | none => rw [h2] at h; cases h
+        | some q => rw [h2] at h; rw [ih _ _ _ _ h2]; exact h
+
+theorem evalM_mono_le (prog : Prog K V X R) (proj : V → W) (rid : R → I) (n m : Nat) (hle : n ≤ m)
+    (tb : Tbl K W X R I) (c : PComp K V X R) (e : Envf K V) (v : R × List K × Tbl K W X R I)
+    (h : evalM prog proj rid n tb c e = some v) : evalM prog proj rid m tb c e = some v := by
+  induction hle with
+  | refl => exact h
+  | step _ ih => exact evalM_mono prog proj rid _ tb c e v ih
+
+/-- **completeness of the memoised evaluator**: whenever the evaluator without memo returns, the memoised one returns
+the same result (given enough fuel), from any correct table -/
+theorem evalM_complete (prog : Prog K V X R) (proj : V → W) (rid : R → I) (hproj : Function.Injective proj)
+    (hrid : Function.Injective rid) :
+    ∀ (m : Nat) (c : PComp K V X R) (e : Envf K V) (r : R) (t : List K) (tb : Tbl K W X R I),
+      TblOK prog proj rid tb → evalU prog m c e = some (r, t) →
+      ∃ n t' tb', evalM prog proj rid n tb c e = some (r, t', tb') := by
+  intro m
+  induction m with
+  | zero => intro c e r t tb _ h; simp [evalU] at h
+  | succ m ih =>
+    intro c e r t tb htb h
+    cases c with
+    | ret r' =>
+      simp only [evalU, Option.some.injEq, Prod.mk.injEq] at h
+      exact ⟨1, [], tb, by simp [evalM, h.1]⟩
+    | get k f =>
+      rw [evalU] at h
+      cases h1 : evalU prog m (f (e k)) e with
+      | none => rw [h1] at h; cases h
+      | some p =>
+        rw [h1] at h
+        obtain ⟨r1, t1⟩ := p
+        simp only [Option.some.injEq, Prod.mk.injEq] at h
+        obtain ⟨rfl, _⟩ := h
+        obtain ⟨n, t', tb', hm⟩ := ih _ _ _ _ tb htb h1
+        exact ⟨n + 1, k :: t', tb', by simp [evalM, hm]⟩
+    | call rc x inh ov cont =>
+      rw [evalU] at h
+      cases h1 : evalU prog m (prog rc x) (calleeEnv inh ov e) with
+      | none => rw [h1] at h; cases h
+      | some p =>
+        rw [h1] at h
+        obtain ⟨res, t1⟩ := p
+        simp only at h
+        cases h2 : evalU prog m (cont res) e with
+        | none => rw [h2] at h; cases h
+        | some q =>
+          rw [h2] at h
+          obtain ⟨r2, t2⟩ := q
+          simp only [Option.some.injEq, Prod.mk.injEq] at h
+          obtain ⟨rfl, _⟩ := h
+          -- the head of prepare returns `res` and a correct table, with some fuel n1 for the computation of a miss
+          have hsub : ∃ n1 t1' tb2, callSub proj rid tb rc x (calleeEnv inh ov e)
+              (fun _ => evalM prog proj rid n1 tb (prog rc x) (calleeEnv inh ov e)) = some (res, t1', tb2) ∧
+              TblOK prog proj rid tb2 := by
+            cases hf : findHit proj (tb.byMatch rc) (calleeEnv inh ov e) x with
+            | some mt =>
+              have hmem : mt ∈ tb.byMatch rc := List.mem_of_find?_eq_some hf
+              have hmatch : mt.matches proj (calleeEnv inh ov e) x = true := by
+                have := List.find?_some hf
+                simpa using this
+              have hx : mt.x = x := ((matches_iff proj mt _ x).1 hmatch).2
+              obtain ⟨n0, t0, hu, _⟩ := htb.1 rc mt hmem (calleeEnv inh ov e) (by rw [hx]; exact hmatch)
+              rw [hx] at hu
+              have := evalU_det prog n0 m _ _ _ _ hu h1
+              simp only [Prod.mk.injEq] at this
+              refine ⟨0, mt.touchKeys, tb, ?_, htb⟩
+              simp [callSub, hf, this.1]
+            | none =>
+              obtain ⟨n1, t1', tb1, hm1⟩ := ih _ _ _ _ tb htb h1
+              obtain ⟨⟨m1, t1'', hu1, heq1⟩, hok1⟩ := evalM_sound prog proj rid hproj hrid n1 tb _ _ _ _ _ htb hm1
+              have hmok : MatcherOK prog proj rc (Matcher.make proj (calleeEnv inh ov e) t1' x res) := by
+                intro e2 hm2
+                obtain ⟨hag, _⟩ := make_matches proj hproj _ e2 t1' x _ res hm2
+                refine ⟨m1, t1'', ?_, fun k => ?_⟩
+                · exact evalU_agree prog m1 _ _ e2 _ _ hu1 (fun k hk => hag k ((heq1 k).2 hk))
+                · rw [make_touchKeys]; exact (heq1 k).symm
+              obtain ⟨hr, hok2⟩ := remember_ok prog proj rid hrid tb1 hok1 rc (calleeEnv inh ov e) t1' x res hmok
+              refine ⟨n1, t1', _, ?_, hok2⟩
+              simp only [callSub, hf, hm1]
+              rw [hr]
+          obtain ⟨n1, t1', tb2, hs, hok2⟩ := hsub
+          obtain ⟨n2, t2', tb3, hm2⟩ := ih _ _ _ _ tb2 hok2 h2
+          refine ⟨max n1 n2 + 1, (if inh then t1' else []) ++ t2', tb3, ?_⟩
+          rw [evalM]
+          rw [callSub_mono proj rid tb rc x _ _
+            (fun _ => evalM prog proj rid (max n1 n2) tb (prog rc x) (calleeEnv inh ov e))
+            (fun v hv => evalM_mono_le prog proj rid n1 _ (Nat.le_max_left _ _) _ _ _ _ hv) _ hs]
+          simp only
+          rw [evalM_mono_le prog proj rid n2 _ (Nat.le_max_right _ _) _ _ _ _ hm2]
+
+end Complete
+
+end Memo
+
+namespace Memo
+
+theorem runCallsM_mono_le {K V W X R I : Type} [DecidableEq K] [DecidableEq W] [DecidableEq X] [DecidableEq I]
+    (prog : Prog K V X R) (proj : V → W) (rid : R → I) (n m : Nat) (hle : n ≤ m) :
+    ∀ (calls : List (Nat × X × Envf K V)) (tb : Tbl K W X R I) (v : List R × Tbl K W X R I),
+      runCallsM prog proj rid n tb calls = some v → runCallsM prog proj rid m tb calls = some v := by
+  intro calls
+  induction calls with
+  | nil => intro tb v h; simpa [runCallsM] using h
+  | cons c rest ih =>
+    intro tb v h
+    obtain ⟨rc, x, e⟩ := c
+    rw [runCallsM] at h ⊢
+    cases h1 : evalM prog proj rid n tb (.call rc x true (fun _ => none) .ret) e with
+    | none => rw [h1] at h; cases h
+    | some p =>
+      rw [h1] at h
+      rw [evalM_mono_le prog proj rid n m hle _ _ _ _ h1]
+      obtain ⟨r, t, tb1⟩ := p
+      simp only at h ⊢
+      cases h2 : runCallsM prog proj rid n tb1 rest with
+      | none => rw [h2] at h; cases h
+      | some q => rw [h2] at h; rw [ih _ _ h2]; exact h
+
+end Memo
